@@ -688,10 +688,10 @@ Proof.
     rewrite IH; [reflexivity|]. exists v0. split; assumption.
 Qed.
 
-Theorem subsample_replace_raises a lay draws t :
+Theorem subsample_replace_core_raises a lay draws t :
   wf t -> lay_wf (axis_vecs a t) lay -> (exists v, In v (axis_vecs a t) /\ zsum v = 0%Z) ->
-  subsample_replace a lay draws t = RErr E_VALUE.
-Proof. intros W HL Hz. unfold subsample_replace. rewrite rep_vecs_zero_vector by assumption. reflexivity. Qed.
+  subsample_replace_core a lay draws t = RErr E_VALUE.
+Proof. intros W HL Hz. unfold subsample_replace_core. rewrite rep_vecs_zero_vector by assumption. reflexivity. Qed.
 
 Lemma Rrep_shape n C vs vs1 : Forall2 (Rrep n) vs vs1 -> rect C vs -> rect C vs1 /\ length vs1 = length vs.
 Proof.
@@ -719,12 +719,13 @@ Proof.
   subst b. f_equal. apply IH. lia.
 Qed.
 
-Theorem subsample_replace_spec n a lay draws t :
+Theorem subsample_replace_core_spec n a lay draws t :
   wf t -> nonneg_table t -> 1 <= n -> lay_wf (axis_vecs a t) lay ->
   Forall (fun v => (0 < zsum v)%Z) (axis_vecs a t) ->
   multis_ok n (gather_all (axis_vecs a t) lay) draws ->
-  exists t', subsample_replace a lay draws t = ROk t' /\ wf t' /\
+  exists t', subsample_replace_core a lay draws t = ROk t' /\ wf t' /\
     ids a t' = ids a t /\
+    (exists m2, ids (other a) t' = select m2 (ids (other a) t)) /\
     Forall (fun v => zsum v = Z.of_nat n) (axis_vecs a t') /\
     (forall o s v, cell t' o s = Some v -> (0 <= v)%Z /\ (v <> 0%Z -> cell t o s <> Some 0%Z)) /\
     Forall (fun c => all_zero c = false) (axis_vecs (other a) t') /\
@@ -734,7 +735,7 @@ Theorem subsample_replace_spec n a lay draws t :
 Proof.
   intros W NN Hn HL HP HD.
   destruct (rep_vecs_R n (axis_vecs a t) lay draws HL HP HD) as [vs1 [E R]].
-  unfold subsample_replace. rewrite E. eexists. split; [reflexivity|].
+  unfold subsample_replace_core. rewrite E. eexists. split; [reflexivity|].
   destruct (Rrep_shape n (n_other a t) _ _ R (axis_vecs_rect a t W)) as [Rc Rl].
   rewrite (axis_vecs_length a t W) in Rl.
   set (K := with_axis_vecs a t vs1).
@@ -750,6 +751,7 @@ Proof.
   split.
   { rewrite finish_ids_axis by assumption. rewrite IK. apply select_all_true; [exact AllPos|].
     rewrite map_length, EK. exact Rl. }
+  split; [eexists; rewrite finish_ids_other by assumption; rewrite IK; reflexivity|].
   split.
   { rewrite finish_vecs_axis by assumption. apply Forall_forall. intros v' Hv'. apply in_map_iff in Hv'.
     destruct Hv' as [v2 [<- Hv2]]. rewrite (finish_sum a K) by assumption.
@@ -916,12 +918,15 @@ Proof.
   apply wf_with_same_len; [exact W|apply sub_vecs_shape].
 Qed.
 
-Theorem subsample_replace_wf a lay draws t t' : wf t -> subsample_replace a lay draws t = ROk t' -> wf t'.
+Theorem subsample_replace_core_wf a lay draws t t' : wf t -> subsample_replace_core a lay draws t = ROk t' -> wf t'.
 Proof.
-  intros W. unfold subsample_replace. destruct (rep_vecs (axis_vecs a t) lay draws) as [vs1|] eqn:E; [|discriminate].
+  intros W. unfold subsample_replace_core. destruct (rep_vecs (axis_vecs a t) lay draws) as [vs1|] eqn:E; [|discriminate].
   intros H. inversion H; subst. apply wf_drop_nonpositive, wf_drop_nonpositive.
   apply wf_with_same_len; [exact W|eapply rep_vecs_shape; exact E].
 Qed.
+
+Theorem subsample_replace_wf a lay draws t t' : wf t -> subsample_replace a lay draws t = ROk t' -> wf t'.
+Proof. intros W. unfold subsample_replace. apply subsample_replace_core_wf. apply wf_drop_nonpositive. exact W. Qed.
 
 Theorem subsample_by_id_wf n a shuffled t : wf t -> wf (subsample_by_id n a shuffled t).
 Proof.
@@ -937,4 +942,65 @@ Proof.
   - destruct wr; simpl.
     + apply subsample_replace_wf. exact W.
     + intros H. inversion H; subst. apply subsample_counts_wf. exact W.
+Qed.
+
+(* ------------------------------------------------------------------ with replacement, the method as repaired:
+   vectors without counts are filtered out before the kernel *)
+Lemma nonneg_filter_mask m a t : nonneg_table t -> nonneg_table (filter_mask m a t).
+Proof.
+  unfold nonneg_table. intros H. destruct a; simpl.
+  - unfold sel_rows. apply Forall_select. exact H.
+  - unfold sel_cols. apply Forall_forall. intros r Hr. apply in_map_iff in Hr. destruct Hr as [r0 [<- Hr0]].
+    apply Forall_select. rewrite Forall_forall in H. apply H. exact Hr0.
+Qed.
+
+Lemma md_of_filter_other m a t y : md_of (other a) (filter_mask m a t) y = md_of (other a) t y.
+Proof. destruct a; reflexivity. Qed.
+
+Theorem subsample_replace_spec n a lay draws t :
+  wf t -> nonneg_table t -> 1 <= n ->
+  lay_wf (axis_vecs a (drop_nonpositive a t)) lay ->
+  multis_ok n (gather_all (axis_vecs a (drop_nonpositive a t)) lay) draws ->
+  exists t', subsample_replace a lay draws t = ROk t' /\ wf t' /\
+    ids a t' = select (map (fun v => (0 <? zsum v)%Z) (axis_vecs a t)) (ids a t) /\
+    Forall (fun v => zsum v = Z.of_nat n) (axis_vecs a t') /\
+    (forall o s v, cell t' o s = Some v -> (0 <= v)%Z /\ (v <> 0%Z -> cell t o s <> Some 0%Z)) /\
+    Forall (fun c => all_zero c = false) (axis_vecs (other a) t') /\
+    (exists m2, ids (other a) t' = select m2 (ids (other a) t)) /\
+    (forall x, In x (ids a t') -> md_of a t' x = md_of a t x) /\
+    (forall y, In y (ids (other a) t') -> md_of (other a) t' y = md_of (other a) t y) /\
+    ttype t' = ttype t.
+Proof.
+  intros W NN Hn. rewrite (drop_nonpositive_mask a t W). set (m0 := map posb (axis_vecs a t)).
+  set (t0 := filter_mask m0 a t). intros HL HD.
+  assert (W0 : wf t0) by (apply wf_filter_mask; exact W).
+  assert (N0 : nonneg_table t0) by (apply nonneg_filter_mask; exact NN).
+  assert (V0 : axis_vecs a t0 = select m0 (axis_vecs a t)) by (apply axis_vecs_filter_same; exact W).
+  assert (P0 : Forall (fun v => (0 < zsum v)%Z) (axis_vecs a t0)).
+  { rewrite V0. pose proof (Forall_select_map posb (axis_vecs a t)) as F. fold m0 in F.
+    eapply Forall_impl; [|exact F]. intros v Hv. unfold posb in Hv. apply Z.ltb_lt. exact Hv. }
+  destruct (subsample_replace_core_spec n a lay draws t0 W0 N0 Hn HL P0 HD)
+    as (t' & E & W' & I1 & [m2 I2] & S & C & Z0 & M1 & M2 & Ty).
+  exists t'. unfold subsample_replace. rewrite (drop_nonpositive_mask a t W). fold m0 t0.
+  split; [exact E|]. split; [exact W'|].
+  assert (IO : ids (other a) t0 = ids (other a) t) by (destruct a; reflexivity).
+  split; [rewrite I1; apply ids_filter_same|].
+  split; [exact S|].
+  split.
+  { intros o s v Hc. destruct (C o s v Hc) as [C1 C2]. split; [exact C1|]. intros Hnz.
+    assert (In o (oids t') /\ In s (sids t')) as [Ho Hs].
+    { unfold cell in Hc. destruct (pos o (oids t')) as [i|] eqn:E1; [|discriminate].
+      destruct (pos s (sids t')) as [j|] eqn:E2; [|discriminate].
+      apply pos_Some in E1. apply pos_Some in E2. destruct E1 as [<- ?]. destruct E2 as [<- ?].
+      split; apply nth_In; assumption. }
+    assert (In o (oids t0) /\ In s (sids t0)) as [Ho0 Hs0].
+    { destruct a; simpl in I1, I2; rewrite I1 in *; rewrite I2 in *; split; try assumption; eapply select_In; eassumption. }
+    rewrite <- (filter_mask_cell m0 a t o s W Ho0 Hs0). apply C2. exact Hnz. }
+  split; [exact Z0|].
+  split; [exists m2; rewrite I2, IO; reflexivity|].
+  split.
+  { intros x Hx. rewrite (M1 x Hx). apply filter_mask_md; [exact W|]. change (In x (ids a t0)). rewrite <- I1. exact Hx. }
+  split.
+  { intros y Hy. rewrite (M2 y Hy). apply md_of_filter_other. }
+  rewrite Ty. destruct a; reflexivity.
 Qed.
